@@ -55,6 +55,21 @@ def variants(v, rng):
     return out
 
 
+# strings that are NOT registered names but would select one if a name were ever read as a pattern (regular expression, glob, prefix):
+# the lookup is plain lower-cased equality, so every one of them is an unregistered name
+PATTERN_NAMES = [".*", ".+", ".", "*", "?", "+", "|", "(", ")", "[", "]", "\\", "[a-z_.]+", "\\w+", "car|bus", "(car)", "c.r", "ca?r", "car?", "ca*r", "[c]ar", "^car$",
+                 "car$", "^car", "(?i)car", "c[a-z]r", "car{1}", "red|green", "re.", "gree.", "^green", "unknown|", "|unknown", "%s", "{}", "car\n", "\ncar",
+                 "car\t", " car", "car\r\n", "green\n", "vehicle\\.car", "vehicle[.]car", "vehicle?car", "vehicle*"]
+
+
+def pattern_variants(name, rng):
+    """near misses of ONE registered name built from pattern metacharacters and white space"""
+    i = rng.randrange(len(name))
+    return [name[:i] + "." + name[i + 1:], name[:i] + "?" + name[i + 1:], name + "?", name + "*", name + ".*", "(" + name + ")", name + "|zzz", "zzz|" + name,
+            "^" + name + "$", name + "$", "[" + name[0] + "]" + name[1:], name + "\n", "\n" + name, name + "\t", name.replace(".", "\\."), name + "\\",
+            name[:i] + "[" + name[i] + "]" + name[i + 1:], name.replace("_", "."), name.replace(" ", "\t"), name[: i + 1] + "*" + name[i + 1:]]
+
+
 class LabelCorr(Corr):
     name = "convert"
     header = ("From Coq Require Import String List Bool.\nFrom PE Require Import Base.CaseUtil Base.StrUtil Gen.LabelTables Model.Label.\n"
@@ -95,6 +110,13 @@ class LabelCorr(Corr):
                         if k.startswith(family):
                             names |= set(tbl)
                     names |= {"", "zzz", "trailer", "Trailer", "cyclist", "vehicle", "pedestrian.", "none"}
+                    # names holding pattern metacharacters / white space: the fixed list and 2 (thorough: 8) of 20 near misses of every
+                    # registered name; a registered name itself may hold such characters ("vehicle.bus (bendy & rigid)"), which is why
+                    # these are lookups by equality and nothing else
+                    names |= set(PATTERN_NAMES)
+                    for li in conv.label_infos:
+                        pv_ = pattern_variants(li.name, rng)
+                        names |= set(rng.sample(pv_, 8 if tier != "quick" else 2))
                     for _ in range(n_rand):
                         names.add("".join(rng.choice(alphabet) for _ in range(rng.randint(1, 14))))
                     for s in sorted(names):
@@ -239,6 +261,8 @@ class LabelCorr(Corr):
 
     def distribution(self, cases, obs):
         d = {"registered": 0, "unregistered": 0, "with_upper_case": 0, "names_with_a_pinned_documented_label": 0,
+             "names_with_pattern_metacharacters": sum(1 for c in cases if any(ch in c["name"] for ch in "*?+|()[]^$\\{}")),
+             "names_with_newline_or_tab": sum(1 for c in cases if any(ch in c["name"] for ch in "\n\t\r")),
              "names_in_the_docs_tables": 0, "conversions_through_a_long_lived_counting_converter": 0, "counted_hits": 0}
         labs = {}
         G = golden()
@@ -366,6 +390,8 @@ class TargetCorr(Corr):
 class C14(Prop):
     id = "C14"
     props_file = "Props/C14.v"
+    # redundant tie (core.gen_tie): these functions, translated from the source on every run, equal the hand model for all inputs
+    gen_tie_theorems = ['GenTie_convert_label', 'GenTie_convert_name']
     gen_files = ["LabelTables.v"]
     design_ref = "DESIGN.md section 4, C14"
     technique = "Rocq proof over label tables regenerated from common/label.py by a Python-ast translator; in-Coq correspondence on all registered names x case variants"
@@ -381,6 +407,10 @@ class C14(Prop):
                   "corpus/C14/golden/label_tables.json (unchanged source at the recorded commit) and the rows of docs/en/perception/label.md "
                   "that the source does not contradict (4 stale traffic-light rows are listed in the file and not used).")
     rule = ("per (family, merge, task): every registered name, enum value and enum key in 6 case variants + near misses + random ASCII strings; "
+            "names read as PATTERNS: a fixed list of 45 strings made of regular-expression / glob metacharacters and white space ('.*', 'c.r', "
+            "'car|bus', '^car$', 'car\\n', '(', '\\\\' ...) and 2 (thorough: 8) of 20 pattern near misses of every registered name (one character "
+            "replaced by '.', '?', '[x]'; '*', '$', '|zzz', a newline / tab / backslash appended; '_' -> '.'), every one of them an "
+            "unregistered name for all three entry points (convert_label, convert_name, set_target_lists are compared on EVERY name); "
             "non-trivial = registered name or contains upper-case letters; plus every name of the PINNED documented tables of the family "
             "(corpus/C14/golden/label_tables.json: a copy of the tables of common/label.py and of docs/en/perception/label.md at a recorded "
             "commit) whatever the converter under test registers, and the oracle demands label == pinned label for each of them; every name "
